@@ -60,13 +60,13 @@ Definition applies (cond : option nat) (t : nat) : bool :=
   | Some c => Nat.eqb c t || implements t c || member_of t c
   end.
 
-(* ---- arguments the container does not declare: under an object type that defines the field, the
-   supplied arguments its definition does not name (checked on every evaluation of the selection,
-   against the object type it is evaluated in) ---- *)
+(* ---- arguments the container does not declare: under an object type (or an interface, for a value
+   bound to no object type) that defines the field, the supplied arguments its definition does not
+   name (checked on every evaluation of the selection, against the type it is evaluated in) ---- *)
 Definition declared_by (fd : fdef) (av : arg) : bool := existsb (fun d => Nat.eqb (a_name d) (fst av)) (f_args fd).
 Definition undeclared_args (t name : nat) (args : list arg) : list arg :=
   match lookup t S with
-  | Some (DObject fs _) =>
+  | Some (DObject fs _) | Some (DInterface fs) =>
       match find_field name fs with
       | Some fd => filter (fun av => negb (declared_by fd av)) args
       | None => []
@@ -334,22 +334,9 @@ Definition strip_frag (e : err) : err :=
 Fixpoint nodup_nat (l : list nat) : bool :=
   match l with [] => true | x :: r => negb (existsb (Nat.eqb x) r) && nodup_nat r end.
 
-(* ---- static validity of documents with respect to arguments: no argument is supplied twice, and
-   every supplied argument is declared by every INTERFACE that defines the field.  (Under an object
-   type undeclared arguments are part of the specification above; the implementation has no check
-   under an interface-typed container - which only occurs for values whose Go type is bound to no
-   object type - so that case stays outside these theorems.) ---- *)
-Definition field_args_ok (S : schema) (name : nat) (args : list arg) : bool :=
-  nodup_nat (map fst args) &&
-  forallb (fun ttd =>
-             match snd ttd with
-             | DInterface fs =>
-                 match find_field name fs with
-                 | Some fd => forallb (fun av => existsb (fun d => Nat.eqb (a_name d) (fst av)) (f_args fd)) args
-                 | None => true
-                 end
-             | _ => true
-             end) S.
+(* ---- static validity of documents with respect to arguments: no argument is supplied twice (such a
+   document is refused when it is parsed) ---- *)
+Definition field_args_ok (S : schema) (name : nat) (args : list arg) : bool := nodup_nat (map fst args).
 
 (* argument names of every field definition are distinct *)
 Definition wf_schema_args (S : schema) : bool :=
